@@ -48,6 +48,14 @@ class Model:
     def enabled(self, tier):
         acts = []
         vis = self.visible()
+        if tier == 'polls':
+            # small alphabet for the question "does it matter WHEN the shell polled?": one background pipeline of two
+            # stages, external stop / continue / kill of either member, and `jobs` (a poll)
+            if not self.jobs:
+                return ['B2']
+            for jid in sorted(vis):
+                acts += ['STOP%d.0' % jid, 'STOP%d.1' % jid, 'KILL%d.0' % jid, 'KILL%d.1' % jid, 'CONT%d.0' % jid]
+            return acts + ['J']
         if self.fg is None:
             if len(vis) < 2 and len(self.jobs) < 3:
                 acts += ['F1', 'F2', 'B1']
@@ -386,14 +394,14 @@ def run(rep, tier):
     # and the full alphabet to depth 6
     have = set(j[0] for j in jobs)
     bfs_info = []
-    for alphabet, maxdepth, seen in ([('quick', 6, False)] if tier == 'quick' else [('quick', 40, False), ('thorough', 6, False), ('thorough', 6, True)]):
+    for alphabet, maxdepth, seen in ([('quick', 6, False), ('polls', 9, True)] if tier == 'quick' else [('polls', 9, True), ('quick', 40, False), ('thorough', 6, False), ('thorough', 6, True)]):
         TRACK_SEEN[0] = seen
         paths, nstates, fix = bfs_transitions(alphabet, maxdepth)
         TRACK_SEEN[0] = False
         extra = [p for p in paths if p not in have]
         have.update(extra)
         jobs += [(p, alphabet) for p in extra]
-        bfs_info.append({'layer': 'explicit-state search over the reference model, every transition replayed on a pty', 'alphabet': 'reduced' if alphabet == 'quick' else 'full',
+        bfs_info.append({'layer': 'explicit-state search over the reference model, every transition replayed on a pty', 'alphabet': {'quick': 'reduced', 'thorough': 'full', 'polls': 'polls (one background two-stage pipeline, stop / continue / kill of either member, jobs)'}[alphabet],
                          'max_depth': maxdepth, 'states_distinguish_what_the_shell_was_told_at_its_last_poll': seen, 'model_states': nstates, 'transitions': len(paths), 'sessions_added': len(extra), 'fixpoint': fix, 'complete': True})
     seqs = [j[0] for j in jobs]
     states = set()
